@@ -12,6 +12,14 @@ RECURSIVE SumArgs(_, _)
 SumArgs(lens, i) == IF i > Len(lens) THEN 0 ELSE (1 + Digits(lens[i]) + 2 + lens[i] + 2) + SumArgs(lens, i + 1)
 EncLen(lens) == 1 + Digits(Len(lens)) + 2 + SumArgs(lens, 1)
 
+\* the one-line form: arguments separated by one blank, then "\r\n"
+RECURSIVE SumLens(_, _)
+SumLens(lens, i) == IF i > Len(lens) THEN 0 ELSE lens[i] + SumLens(lens, i + 1)
+InlineLen(lens) == SumLens(lens, 1) + (Len(lens) - 1) + 2
+RECURSIVE EndOffI(_, _, _, _, _)
+EndOffI(start, hb, cmds, inl, i) ==
+  IF i = 0 THEN start ELSE EndOffI(start, hb, cmds, inl, i - 1) + hb[i] + (IF inl[i] THEN InlineLen(cmds[i]) ELSE EncLen(cmds[i]))
+
 \* end offset of command i when the stream starts at `start`, hb[j] bare "\n"
 \* heartbeats precede command j (each is one consumed byte)
 RECURSIVE EndOff(_, _, _, _)
